@@ -945,6 +945,94 @@ func c18R4(p *Prog, r *Report) {
 							}
 						}
 					}
+					// no further option may narrow the refusal, except the very switch that decides
+					// whether a UDP relay is built at all (UDPRelay's own enable test): a refusal
+					// that also asks for, say, the legacy enableUDP flag lets the listener-array
+					// form of the same configuration through
+					udpGuards := map[types.Object]bool{} // boolean fields whose falsity disables the UDP relay
+					lenGuards := map[types.Object]bool{} // slice fields whose emptiness disables it
+					lenOf := func(info *types.Info, e ast.Expr) types.Object {
+						c, ok := ast.Unparen(e).(*ast.CallExpr)
+						if !ok || len(c.Args) != 1 {
+							return nil
+						}
+						if id, ok := ast.Unparen(c.Fun).(*ast.Ident); !ok || id.Name != "len" {
+							return nil
+						}
+						if f := fieldOrVar(info, c.Args[0]); f != nil && isField(f) {
+							return f
+						}
+						return nil
+					}
+					for _, cv := range ur.G.V {
+						if cv.Kind != VCond {
+							continue
+						}
+						if f := fieldOrVar(ur.Info(), cv.Node.(ast.Expr)); f != nil && isField(f) {
+							for _, e := range cv.Succs {
+								if e.Label == LFalse && errorOnlyFrom(ur, e) {
+									udpGuards[f] = true
+								}
+							}
+						}
+						if x, y, op, okc := condParts(cv); okc && y != nil {
+							if k, isC := constInt(ur.Info(), y); isC && k == 0 {
+								if f := lenOf(ur.Info(), x); f != nil {
+									for _, e := range cv.Succs {
+										emptyEdge := (op == token.EQL && e.Label == LTrue) || ((op == token.NEQ || op == token.GTR) && e.Label == LFalse)
+										if emptyEdge && errorOnlyFrom(ur, e) {
+											lenGuards[f] = true
+										}
+									}
+								}
+							}
+						}
+					}
+					// a boolean field computed (before the refusal) as a disjunction one of whose
+					// members is "that slice is not empty" is implied by the relay being built
+					for _, v := range fc.G.V {
+						as, isAs := v.Node.(*ast.AssignStmt)
+						if !isAs || len(as.Lhs) != 1 || len(as.Rhs) != 1 || !fc.G.Dominates([]int{v.ID}, ret) {
+							continue
+						}
+						f := fieldOrVar(fc.Info(), as.Lhs[0])
+						if f == nil || !isField(f) {
+							continue
+						}
+						var disj func(e ast.Expr) bool
+						disj = func(e ast.Expr) bool {
+							e = ast.Unparen(e)
+							if be, ok := e.(*ast.BinaryExpr); ok {
+								if be.Op == token.LOR {
+									return disj(be.X) || disj(be.Y)
+								}
+								if k, isC := constInt(fc.Info(), be.Y); isC && k == 0 && (be.Op == token.GTR || be.Op == token.NEQ) {
+									if lf := lenOf(fc.Info(), be.X); lf != nil && lenGuards[lf] {
+										return true
+									}
+								}
+							}
+							return false
+						}
+						if disj(as.Rhs[0]) && len(fc.Defs(f)) == 0 {
+							udpGuards[f] = true
+						}
+					}
+					for _, cv := range fc.G.V {
+						if cv.Kind != VCond || !fc.G.EdgeDominates(trueEdges(cv), ret) {
+							continue
+						}
+						f := fieldOrVar(fc.Info(), cv.Node.(ast.Expr))
+						if f == nil || !isField(f) || f.Name() == "TunnelUDPTargetOnly" {
+							continue
+						}
+						if b, isB := f.Type().Underlying().(*types.Basic); !isB || b.Kind() != types.Bool {
+							continue
+						}
+						if !udpGuards[f] {
+							all = false
+						}
+					}
 					if all {
 						ok = true
 					}
